@@ -394,6 +394,9 @@ type hdrScenario struct {
 	Offend  []string // names (as declared) of offending required headers; empty => must dispatch
 	Skip    bool     // not asserted
 	BadBody bool
+	// Encoding: a Content-Encoding the peer announces for its body (the body is then NOT valid in that coding):
+	// whatever a server does about coded bodies comes after the decision about the headers
+	Encoding string
 }
 
 // clearlyInvalidFor: v is invalid for header h under every published reading of its type and format.
@@ -460,6 +463,9 @@ func c09decl(c *Ctx, d *hdrDecl, ch, node *lab.Child, gs, ts *srv, protoText str
 		}
 		scs = append(scs, hdrScenario{Class: "absent", Headers: allValid(h.Name), Offend: []string{h.Name}})
 		scs = append(scs, hdrScenario{Class: "absent+bad-body", Headers: allValid(h.Name), Offend: []string{h.Name}, BadBody: true})
+		for _, enc := range []string{"gzip", "x-gzip", "deflate", "br", "identity"} {
+			scs = append(scs, hdrScenario{Class: "absent+body-announced-as-" + enc, Headers: allValid(h.Name), Offend: []string{h.Name}, BadBody: true, Encoding: enc})
+		}
 		if h.Type != "array" {
 			scs = append(scs, hdrScenario{Class: "non-utf8", Headers: append(allValid(h.Name), [2]string{h.Name, "caf\xe9\xff"}), Offend: []string{h.Name},
 				// un-formatted strings: Go checks UTF-8, the published schema (type: string) cannot express it → only typed/format headers are asserted
@@ -520,6 +526,10 @@ func c09decl(c *Ctx, d *hdrDecl, ch, node *lab.Child, gs, ts *srv, protoText str
 			body := []byte(`{"note":"n"}`)
 			if sc.BadBody {
 				body = []byte(`{"note": `)
+			}
+			if sc.Encoding != "" {
+				hdr = append(hdr, [2]string{"Content-Encoding", sc.Encoding})
+				body = []byte("\x1f\x8bnot a compressed stream at all, 36+ bytes long")
 			}
 			base, child := gs.URL, ch
 			if target == "ts" {
